@@ -15,6 +15,7 @@
    NOT expressible here: heap lifetimes of the C objects themselves, allocation failure (C18), the sanitizer verdicts. -/
 import HtpModel.Lemmas.Decode
 import HtpModel.Lemmas.Segment
+import HtpModel.Lemmas.CursorInv
 
 namespace Htp.C01
 open Htp Htp.Conn Htp.Gen Htp.Decode
@@ -77,5 +78,26 @@ theorem C01_destroy_unlinks (uid : Nat) (c : Conn) :
     split
     · simp
     · rename_i h; simpa using h
+
+/-- **C01 (the cursors stay inside the chunk, every state function)**: a data call stores a chunk with the cursors at its start
+    (`wf_reqStoreChunk`), and each of the fourteen request state functions - whatever it answers, for every chunk, buffer content, transaction
+    list and callback policy - leaves 0 <= consume <= read <= len <= |chunk|, so every `data[offset]` of the next pass has offset < len.
+    The two counted body states need a non-negative amount owed (they are entered with a positive one; a negative amount would be
+    converted to a huge size_t in C: that the Content-Length parser never lets one through is corresponded, not proved). -/
+theorem C01_req_state_cursors_in_chunk (cfg : Cfg) (c : Conn) (w : WFCur c.inn)
+    (ho1 : c.inState = ReqState.bodyIdentity → 0 ≤ c.inn.bodyDataLeft)
+    (ho2 : c.inState = ReqState.bodyChunkedData → 0 ≤ c.inn.chunkedLength) :
+    WFCur (reqStateFn cfg c).1.inn ∧ WFCur (reqHandleStateChange (reqStateFn cfg c).1).1.inn :=
+  ⟨wfIn_reqStateFn cfg c w ho1 ho2, wfIn_reqHandleStateChange _ (wfIn_reqStateFn cfg c w ho1 ho2)⟩
+
+/-- the state a data call starts its loop in -/
+theorem C01_req_chunk_stored_wellformed (d : Bytes) (c : Conn) (h : (d.length : Int) < 18446744073709551616) :
+    WFCur (reqStoreChunk (some d) d.length c).inn := wf_reqStoreChunk d c h
+
+/-- non-vacuity: a fresh chunk in the request-line state satisfies the hypotheses, and the line state reads it to its end -/
+example :
+    let c : Conn := reqStoreChunk (some (b!"GET /")) 5 { inState := .line }
+    WFCur c.inn ∧ (reqStateFn {} c).1.inn.read = 5 := by
+  refine ⟨wf_reqStoreChunk _ _ (by decide), by decide⟩
 
 end Htp.C01
